@@ -8,6 +8,14 @@ HERE = os.path.dirname(os.path.dirname(os.path.abspath(__file__)))
 
 # id -> (technique, level text, level note, design ref)
 CHECKS = {
+    "C08": (
+        "exhaustive small-scope enumeration of detection problems (all event lists <= 2 x 2 per clip over geometry x tag/score alphabets; all two-slot clip presence patterns x presets x orders x vocabularies) on the real sound_event_detection, with an independent re-derivation of every reported quantity",
+        "Every annotated/predicted event list of length <= 2 per side over {none, A, B, C} geometries x tag sets / score vectors in one clip, and every presence pattern of two clip slots x 6 presets x 2 list orders x 3 vocabularies, "
+        "is evaluated by the real function; the returned evaluation is checked for: evaluated clips == shared clips, every event in exactly one match, pairs only with positive compute_affinity, reported affinity == the pair's affinity, "
+        "score == predicted probability of the first in-vocabulary annotation tag (residual if none), unpaired 0/0, clip score == mean of match scores, overall == mean of clip scores.",
+        "compute_affinity (decided by C06) is used to define overlap; optimality is C07's clause; inputs with no evaluated item are not judged; lists > 2 events per side are not covered.",
+        "DESIGN.md 4/C08",
+    ),
     "C02": (
         "explicit-state exploration of object graphs (same generator as C01) with a document-level oracle: reference-site table + generic UUID sweep + independent reachability walk; plus all ordered pairs of save/load histories in one process",
         "Every configuration within 2 (quick) / 3 (thorough) deviations of three poles for each of the 8 collection types is saved; the JSON text is checked for unique ids per list, "
